@@ -1,0 +1,7 @@
+//go:build !verif
+
+package pokertable
+
+func (te *tableEngine) verifHook(point string) {}
+
+func (g *game) verifHook(point string) {}
